@@ -217,3 +217,21 @@ PROPS['C17'] = dict(
     assumptions=['encodings shorter than 16 bytes are not searched (chance matches); the vacuity guard requires the same search to find the keys in the secret export'],
     jobs=lambda tier, seed: J('c17.cpp', 'optim', 'spqlios-fma', n=6, ldflags='-ldl') + (J('c17.cpp', 'debug', 'fftw', n=6, ldflags='-ldl') if tier == 'thorough' else []),
 )
+
+# ------------------------------------------------------------------------------------------------ C01
+def _c01(tier, seed):
+    if tier == 'quick':
+        return J('c01.cpp', 'optim', 'spqlios-fma', n=14) + J('c01.cpp', 'optim', 'fftw', n=2, args=['kinds=2'])
+    jobs = []
+    for be in BE:
+        jobs += J('c01.cpp', 'optim', be, n=4, deadline=2400, timeout=3000)
+        jobs += J('c01.cpp', 'debug', be, n=4, args=['K=1', 'kinds=3'], deadline=2400, timeout=3000)
+    return jobs
+PROPS['C01'] = dict(
+    level='exploration',
+    rule='cases = (parameter set, key seed, gate, truth row, input kind per wire) on one library variant per job; kinds: F fresh, P+/P- fresh with the true phase moved to +-1/8 +- (1/32 - 2^-20), T trivial, B output of a bootstrapped gate. '
+         'oracle: bootsSymDecrypt == truth table; harness-side exact rounded phase p of the internal combination in the right half circle; output error < 1/32. non-trivial = bootstrapping gate with at least one non-trivial input',
+    bounds={'quick': '14 gates x all rows x kinds {F,P+,P-}^arity x {80,128}-bit x 1 key seed on optim/spqlios-fma (+ {F,P+} on optim/fftw)', 'thorough': 'all 5 kinds^arity x 2 key seeds x 5 back-ends (optim); kinds {F,P+,P-} x 1 seed x 5 back-ends (debug)'},
+    assumptions=['every case is deterministic given (VERIF_SEED, case key); a correct tree fails a case with probability < 1e-50 (margin >= 17 sigma at the adversarial limit)'],
+    jobs=_c01,
+)
